@@ -218,8 +218,27 @@ def joinBody (x y : Table) (cols : List String) (mode : Mode) (ms : List Match) 
   rkeys.map (fun k => (k, expand ms fun _ r => Val.cell (y.jcellAt k r))) ++
   jkeys.map (fun k => (k, expand ms fun l r => mode.apply (x.jcellAt k l) (y.jcellAt k r)))
 
+/-- `d[k] = v` on an insertion-ordered dict: an existing key keeps its place and takes the new value -/
+def dictSet {α} (d : List (String × α)) (k : String) (v : α) : List (String × α) :=
+  if d.any (·.1 == k) then d.map (fun c => if c.1 == k then (k, v) else c) else d ++ [(k, v)]
+
+/-- `dict(zip(names, columns))`, the reading `dictable(rows, cols)` gives to the key columns (line 1138):
+when two key columns carry one name the later one wins, at the place of the first -/
+def dictOf {α} (kvs : List (String × α)) : List (String × α) :=
+  kvs.foldl (fun d kv => dictSet d kv.1 kv.2) []
+
+/-- the keyed join when two key columns carry one name (`x.join(y, ['a','a'], ['a','b'])`): the same computation,
+the key columns read through `dictOf` (for distinct names `dictOf` is the identity, `dictOf_nodup`, so this is
+also what the main branch of `join` computes) -/
+def joinDup (x y : Table) (lcols rcols : List KeySpec) (cols : List String) (mode : Mode) : Res VTable := do
+  let lk ← x.keysOf lcols
+  let rk ← y.keysOf rcols
+  let ms := joinMatches lk rk
+  let keyCols : VTable := dictOf (cols.zipIdx.map fun (c, j) => (c, (keyRows ms).map (tupleGet j)))
+  pure (keyCols ++ joinBody x y cols mode ms)
+
 /-- `x.join(y, lcols, rcols, mode)`; `lcols = none` ⇒ the shared columns, `rcols = none` ⇒ `lcols`.
-Returns `none` for the one spelling that is not modelled: two key columns with one name. -/
+(Total: the `Option` is kept for the driver's signature.) -/
 def join (x y : Table) (lcols rcols : Option (List KeySpec)) (mode : Mode) : Option (Res VTable) :=
   let lcols := lcols.getD ((linter x.cols y.cols).map .col)
   let rcols := rcols.getD lcols
@@ -227,7 +246,7 @@ def join (x y : Table) (lcols rcols : Option (List KeySpec)) (mode : Mode) : Opt
   match joinColNames lcols rcols with
   | .error e => some (.error e)
   | .ok cols =>
-    if ¬ cols.Nodup then none else
+    if ¬ cols.Nodup then some (joinDup x y lcols rcols cols mode) else
     if cols.isEmpty then
       -- cross join: `lids = [range(len(self))]; rids = [range(len(other))]`
       let ms : List Match := [(.cell .none, List.range x.nrows, List.range y.nrows)]
